@@ -190,9 +190,9 @@ def judge(case, rep, S):
     else:
         rep.viol("unknown_type_accepted", "complexity type %r accepted on %s: %r" % (bad_t, seq, r))
     for t in ("WF", "LC", "LZW"):
-        w = N + rng.choice([1, 1, 2, 5])
+        w = N + rng.choice([1, 1, 2, 5, 10, N, 10 * N])
         try:
-            r = obj.get_linear_complexity(complexityType=t, blobLen=w, stepSize=rng.choice([1, 2]))
+            r = obj.get_linear_complexity(complexityType=t, blobLen=w, stepSize=rng.choice([1, 2, 3, 7, N + 1, 2 * w]))
         except Exception:
             rep.cnt("rejected_long_window")
         else:
